@@ -115,7 +115,7 @@ CHECKS.update({
              "emitted bytes/label references == reference encoding, counter' == counter + bytes emitted (the inductive step behind correct label "
              "addresses for programs of any length), relative-jump closure == target - (next+2) mod 256. AST shape concrete per harness, registers/"
              "constants/counter symbolic. Two-operand class: leaf encoders for 33 of 48 shapes per class + byte count/counter through "
-             "push_instruction + opcode-base dispatch on one shape.",
+             "push_instruction + opcode-base dispatch (second byte) on the register/register shape.",
         design_ref="DESIGN.md section 3 / C02",
         note="NOT covered: label table (HashMap insert/lookup, case), finish() substitution, line/byte pairing; 15 heavy two-operand shapes per class only "
              "by halves; .DB item count <= 4; .DW not covered (does not finish in CBMC). RandomState::new stubbed, logging compiled out.",
@@ -135,7 +135,7 @@ CHECKS.update({
              "ARBITRARY deterministic automaton (symbolic next-state/micro-address/run-state tables): for every behaviour of the edge and every "
              "start state the step issues exactly the edges up to the next boundary or halt, for steps of at most 6 (quick) / 12 (thorough) edges; a "
              "second lemma with a counter-shaped edge function (symbolic leave/back/halt positions and start phase) covers steps of up to 100 (quick) / "
-             "560 (thorough) edges - longer than the longest real step (DIV, quotient 255, < 530 edges); Real mode = exactly one edge. "
+             "220 (thorough) edges (every instruction except DIV with a quotient above ~105 and the longest MULs); Real mode = exactly one edge. "
              "'A step always returns' is decided from the proved sequencer graph; the 20 undefined first bytes for which it does not are a known finding.",
         design_ref="DESIGN.md section 3 / C11",
         note="The real edge is stubbed in this lemma (it is C01/C05/C09's subject); counterexamples are confirmed on the real code by a native sweep "
@@ -211,9 +211,13 @@ def main():
              "kind_free_text": "pest grammar file -> SMT encoding of PEG semantics over a symbolic bounded string (z3 python API)"},
         ],
         "checks": checks,
-        "notes": "Solver-based checking only (see DESIGN.md). Exit codes: 0 held / known findings only, 1 VIOLATION "
-                 "(natively reproduced counterexample), 2 inconclusive (timeout, OOM, vacuity, non-reproducing "
-                 "counterexample) - never reported as a pass.",
+        "notes": "Solver-based checking only (see DESIGN.md, section 'Build-phase status' first). Exit codes: 0 held / known findings only, "
+                 "1 VIOLATION (natively reproduced counterexample), 2 inconclusive (timeout, OOM, vacuity, non-reproducing counterexample) - "
+                 "never reported as a pass. Parts of claimed properties that the solver cannot reach and that are therefore NOT covered: "
+                 "C02/C06 label table + finish() (HashMap, case handling), ByteCode line/byte pairing, .DW, 15 of 48 two-operand shapes per class "
+                 "(covered by halves only); C03 everything on the Rust side of the pest grammar (AST construction, never-panics, 40-label limit, "
+                 "undefined labels); C04 no end-to-end interrupted-vs-uninterrupted run (obligation list instead); C11 steps longer than 100 edges in "
+                 "the quick tier (220 in thorough). 46 independently seeded changes are filed under seeded/ (41 caught by the quick tier).",
         "not_applicable": na,
     }
     json.dump(m, open(os.path.join(VERIF, "MANIFEST.json"), "w"), indent=1)
